@@ -455,3 +455,56 @@ def text_scan_rule(chk, w, rule, parser):
            "%s inspects its input text through %s besides the single character scan (%d scan(s)); a predicate on the raw text cannot know whether a character is escaped, "
            "so text the writer produces (e.g. a token ending in an escaped space) can be rejected or split differently" % (parser, sorted({c for _, c in bad}), len(scans)),
            site=C.site(C.body(w, parser), bad[0][0] if bad else None), sample={"parser": sh, "uses": sorted({c for _, c in uses})})
+
+
+def slot_range_sites(w, fn):
+    """the tag slots written for one character are `ts[.. last present tag + 1]`: in the writers this bound is
+    `ts.iter().rposition(is_some).map_or(0, |x| x + 1)`.  Returns [(bb, default value, closure result form)] for every map_or
+    whose receiver is the result of an rposition call in `fn` (inlined helpers included)."""
+    b = C.body(w, fn)
+    out = []
+    rpos = {t["dest"]["local"] for _, t in cfgmod.calls(b) if (cfgmod.callee(t) or "").endswith("Iterator>::rposition") or (cfgmod.callee(t) or "").endswith("Iterator::rposition")}
+    clos = {}
+    for k in C.closure_keys(w, fn):
+        cb = w.bodies[k][0]
+        m = re.search(r"\{closure@[^}]*\}", cb.locals[1]["ty"]) if len(cb.locals) > 1 else None
+        if m:
+            clos[m.group(0)] = cb
+    for bb, t in cfgmod.calls(b):
+        if not (cfgmod.callee(t) or "").endswith("Option::map_or") or len(t["args"]) != 3:
+            continue
+        p0 = t["args"][0].get("move") or t["args"][0].get("copy")
+        if not p0 or not (C.backward_locals(b, p0["local"], depth=3) & rpos):
+            continue
+        dflt = t["args"][1].get("const", {}).get("int") if "const" in t["args"][1] else None
+        a2 = t["args"][2]
+        ty = None
+        p2 = a2.get("move") or a2.get("copy")
+        if p2:
+            ty = b.locals[p2["local"]]["ty"]
+        elif "const" in a2:
+            ty = a2["const"].get("zst") or a2["const"].get("ty")
+        m = re.search(r"\{closure@[^}]*\}", ty or "")
+        form = None
+        if m and m.group(0) in clos:
+            cb = clos[m.group(0)]
+            ci = absint.Interp(w, cb, models=effects.EXTRA_MODELS)
+            fs = set()
+            for o in ci.run(0):
+                if o.kind == "return":
+                    fs.add(forms.show(forms.Normalizer(ci, o).form(o.value_at((("L", 0),)))))
+                else:
+                    fs.add(o.kind)
+            form = sorted(fs)
+        out.append((bb, dflt, form))
+    return out
+
+
+def slot_range_rule(chk, w, rule, fn, floor):
+    sites = slot_range_sites(w, fn)
+    chk.floor(rule, "tag slot ranges", len(sites), floor)
+    for k, (bb, dflt, form) in enumerate(sites):
+        chk.ob(rule, "writer:tag-slot-range[%d]" % k, dflt == 0 and form == ["1 + arg2"],
+               "the tags of one character are written up to slot `rposition(present).map_or(%s, |x| %s)`; expected map_or(0, |x| x + 1): every slot up to AND INCLUDING the last "
+               "present tag (otherwise the last tag of that character is not written and is lost on re-parsing)" % (dflt, form), site=C.site(C.body(w, fn), bb),
+               sample={"default": dflt, "closure": form})
